@@ -137,6 +137,7 @@ type zzTx struct {
 	payload  ctrlertypes.ITrxPayload
 	signer   int  // key index used to sign (normally == from)
 	chain    string
+	mutate   int // != 0: alter one signed field after signing (C03)
 }
 
 func (n *zzNode) toAddr(i int) types.Address {
@@ -170,6 +171,45 @@ func (n *zzNode) encode(t *zzTx) []byte {
 		panic(err)
 	}
 	tx.Sig = sig
+	switch t.mutate {
+	case 1:
+		tx.Amount = new(uint256.Int).Add(tx.Amount, uint256.NewInt(1))
+	case 2:
+		tx.Nonce++
+	case 3:
+		tx.Gas++
+	case 4:
+		if t.to == -2 {
+			tx.To = types.ZeroAddress()
+		} else {
+			tx.To = zzStranger()
+		}
+	case 5:
+		tx.Time++
+	case 6:
+		tx.Version++
+	case 7:
+		tx.From = zzAddr((t.from + 1) % 3)
+	case 8:
+		switch p := tx.Payload.(type) {
+		case *ctrlertypes.TrxPayloadUnstaking:
+			h := append([]byte{}, p.TxHash...)
+			h[31] ^= 1
+			tx.Payload = &ctrlertypes.TrxPayloadUnstaking{TxHash: h}
+		case *ctrlertypes.TrxPayloadVoting:
+			tx.Payload = &ctrlertypes.TrxPayloadVoting{TxHash: p.TxHash, Choice: p.Choice + 1}
+		case *ctrlertypes.TrxPayloadWithdraw:
+			tx.Payload = &ctrlertypes.TrxPayloadWithdraw{ReqAmt: new(uint256.Int).Add(p.ReqAmt, uint256.NewInt(1))}
+		case *ctrlertypes.TrxPayloadSetDoc:
+			tx.Payload = &ctrlertypes.TrxPayloadSetDoc{Name: p.Name + "x", URL: p.URL}
+		case *ctrlertypes.TrxPayloadProposal:
+			q := *p
+			q.ApplyingHeight++
+			tx.Payload = &q
+		default:
+			tx.GasPrice = new(uint256.Int).Add(tx.GasPrice, uint256.NewInt(1))
+		}
+	}
 	bz, xerr := tx.Encode()
 	if xerr != nil {
 		panic(xerr)
